@@ -1,7 +1,8 @@
 import Mltwist.Lemmas.EmulatorStep
 /-
 Emulator (C03, C04), part 9: runs.  The invariant `Ready` (state invariant + a known instruction
-pointer) is preserved by every step; along a whole run no state is requested twice, every request is
+pointer) is preserved by every step — also by a step that fails with the access error (REPAIR F45:
+`step_ready_total`, `run_total`: no domain hypothesis); along a whole run no state is requested twice, every request is
 for state the emulator did not know when the run began and has never learnt since, and everything
 requested is known from then on; reads of known state return the state's value without a request;
 the program's writes are the only thing that changes a value.
@@ -183,8 +184,7 @@ theorem run_log (p : Provider) (code : CodeView) (hw : CodeWF code) : ∀ (n : N
     | none =>
       rw [hl] at hstep
       have hrun : run p code (n + 1) s = ([.err], s) := by
-        show (match step p code s with | .ok s' rep log => _ | o => ([o], s)) = _
-        rw [show step p code s = .err from hstep]
+        simp only [run, show step p code s = .err from hstep]
       rw [hrun]
       refine ⟨hr, ?_, List.Pairwise.nil, fun _ h => (nomatch h)⟩
       intro o ho
@@ -199,8 +199,7 @@ theorem run_log (p : Provider) (code : CodeView) (hw : CodeWF code) : ∀ (n : N
           (.ok (finish ins (ins.effects.any isJump) s2) rep log ::
             (run p code n (finish ins (ins.effects.any isJump) s2)).1,
            (run p code n (finish ins (ins.effects.any isJump) s2)).2) := by
-        show (match step p code s with | .ok s' rep log => _ | o => ([o], s)) = _
-        rw [h1]
+        simp only [run, h1]
       rw [hrun]
       have hi1 := hf.inv hr.inv
       have hsup := hf.supplied hr.inv
@@ -239,15 +238,13 @@ where
       | none =>
         rw [hl] at hstep
         have hrun : run p code (n + 1) s = ([.err], s) := by
-          show (match step p code s with | .ok s' rep log => _ | o => ([o], s)) = _
-          rw [show step p code s = .err from hstep]
+          simp only [run, show step p code s = .err from hstep]
         rw [hrun]; exact h
       | some ins =>
         rw [hl] at hstep
         obtain ⟨s1, s2, log, rep, h1, hf, ha, hr'⟩ := hstep
         have hrun : (run p code (n + 1) s).2 = (run p code n (finish ins (ins.effects.any isJump) s2)).2 := by
-          show (match step p code s with | .ok s' rep log => _ | o => ([o], s)).2 = _
-          rw [h1]
+          simp only [run, h1]
         rw [hrun]
         apply run_known p code hw n _ hr' (hd.2 _ rep log h1)
         apply known_after ha (hf.inv hr.inv) ins _
@@ -262,6 +259,157 @@ where
           cases hg : s.mems.abs key (a + i) with
           | none => exact absurd hg (h i hi')
           | some b => rw [hf.mext hr.inv key _ b hg]; simp
+
+/-! ### runs, whatever the accesses (REPAIR F45) -/
+
+/-- every store of the code has a width between 1 and 255 -/
+def CodeSW (code : CodeView) : Prop := ∀ ins ∈ code, InsSW ins
+
+/-- ONE STEP FROM A READY STATE, WHATEVER THE PROVIDER ANSWERS AND WHATEVER THE INSTRUCTION ACCESSES: never a panic.
+The error iff no instruction starts at the instruction pointer; otherwise success into a ready state, or the
+access error: an access `[a, a+w)` of the instruction does not fit the address space (the step is outside
+`StepDom`), and the state `s1` the emulator is left in results from `s` by the provider calls `log` of the failed
+step only (`Fill`: each for state unknown at its moment, its answer stored) — no effect of the instruction was
+applied, the instruction pointer is the same constant — and is ready again -/
+theorem step_ready_total (p : Provider) (code : CodeView) {s : State} (hr : Ready s) (hw : CodeWF code)
+    (hs : CodeSW code) :
+    ∃ c, assocGet ipKey s.regs = some (.const c) ∧
+      match code.lookup (leToNat c % 2 ^ 64) with
+      | none => step p code s = .err
+      | some ins =>
+        (∃ s1 s2 log rep,
+          step p code s = .ok (finish ins (ins.effects.any isJump) s2) rep log ∧
+          Fill p s log s1 ∧ Applied s1 (ins.effects.map (evalEff s1)) s2 ∧
+          Ready (finish ins (ins.effects.any isJump) s2)) ∨
+        (∃ s1 log a w, step p code s = .accessErr s1 log a w ∧ Fill p s log s1 ∧ Ready s1 ∧
+          assocGet ipKey s1.regs = some (.const c) ∧ 2 ^ 64 ≤ a + w ∧ ¬ StepDom p code s ins) := by
+  obtain ⟨c, hc⟩ := hr.ipConst
+  refine ⟨c, hc, ?_⟩
+  cases hl : code.lookup (leToNat c % 2 ^ 64) with
+  | none =>
+    show step p code s = .err
+    unfold step
+    rw [mustIP_spec hc]
+    simp only [hl]
+  | some ins =>
+    rcases step_total p code hr.inv hc hl (hw ins (lookup_mem hl)) (hs ins (lookup_mem hl)) with
+      ⟨s1, s2, log, rep, h1, h2, h3, h4, h5, _⟩ | ⟨s1, log, a, w, h1, h2, h3, h4, h5⟩
+    · refine Or.inl ⟨s1, s2, log, rep, h1, h2, h4, inv_finish h5, ip_finish (h4.reg_known ipKey ?_)⟩
+      rw [h2.rext ipKey _ hc]; simp
+    · have hip := h2.rext ipKey _ hc
+      exact Or.inr ⟨s1, log, a, w, h1, h2, ⟨h3, by rw [hip]; simp⟩, hip, h4, h5⟩
+
+/-- what is known stays known along a run, whatever the accesses -/
+theorem run_known_total (p : Provider) (code : CodeView) (hw : CodeWF code) (hs : CodeSW code) :
+    ∀ (n : Nat) (s : State), Ready s → ∀ {r : Req}, KnownReq s r → KnownReq (run p code n s).2 r
+  | 0, s, _, _, h => h
+  | n + 1, s, hr, r, h => by
+    -- what is known is still known after the provider fills
+    have hfill : ∀ {s1 : State} {log : List Req}, Fill p s log s1 → KnownReq s1 r := by
+      intro s1 log hf
+      cases r with
+      | reg key w =>
+        show assocGet key s1.regs ≠ none
+        cases hg : assocGet key s.regs with
+        | none => exact absurd hg h
+        | some e => rw [hf.rext key e hg]; simp
+      | mem key a w =>
+        intro i hi'
+        cases hg : s.mems.abs key (a + i) with
+        | none => exact absurd hg (h i hi')
+        | some b => rw [hf.mext hr.inv key _ b hg]; simp
+    obtain ⟨c, hc, hstep⟩ := step_ready_total p code hr hw hs
+    cases hl : code.lookup (leToNat c % 2 ^ 64) with
+    | none =>
+      rw [hl] at hstep
+      have hrun : run p code (n + 1) s = ([.err], s) := by
+        simp only [run, show step p code s = .err from hstep]
+      rw [hrun]; exact h
+    | some ins =>
+      rw [hl] at hstep
+      rcases hstep with ⟨s1, s2, log, rep, h1, hf, ha, hr'⟩ | ⟨s1, log, a, w, h1, hf, hr', _⟩
+      · have hrun : (run p code (n + 1) s).2 = (run p code n (finish ins (ins.effects.any isJump) s2)).2 := by
+          simp only [run, h1]
+        rw [hrun]
+        exact run_known_total p code hw hs n _ hr' (known_after ha (hf.inv hr.inv) ins _ (hfill hf))
+      · have hrun : (run p code (n + 1) s).2 = s1 := by
+          simp only [run, h1]
+        rw [hrun]
+        exact hfill hf
+
+/-- C03 (never a panic) and C04 (the provider log) over whole runs, WHATEVER THE ACCESSES: the conclusions of
+`run_log` without the domain hypothesis `RunDom`.  A run ends with the first error — no instruction at the
+instruction pointer, or an access that leaves the address space; the provider calls of such a failed last step
+belong to the log, and the claims hold for them as well -/
+theorem run_total (p : Provider) (code : CodeView) (hw : CodeWF code) (hs : CodeSW code) :
+    ∀ (n : Nat) (s : State), Ready s →
+    Ready (run p code n s).2 ∧
+    (∀ o ∈ (run p code n s).1, match o with | .panic _ => False | _ => True) ∧
+    (logOf (run p code n s).1).Pairwise Req.Disjoint ∧
+    (∀ r ∈ logOf (run p code n s).1, Unknown s r ∧ KnownReq (run p code n s).2 r)
+  | 0, s, hr => ⟨hr, fun _ h => (nomatch h), List.Pairwise.nil, fun _ h => (nomatch h)⟩
+  | n + 1, s, hr => by
+    obtain ⟨c, hc, hstep⟩ := step_ready_total p code hr hw hs
+    cases hl : code.lookup (leToNat c % 2 ^ 64) with
+    | none =>
+      rw [hl] at hstep
+      have hrun : run p code (n + 1) s = ([.err], s) := by
+        simp only [run, show step p code s = .err from hstep]
+      rw [hrun]
+      refine ⟨hr, ?_, List.Pairwise.nil, fun _ h => (nomatch h)⟩
+      intro o ho
+      simp only [List.mem_singleton] at ho
+      subst ho
+      trivial
+    | some ins =>
+      rw [hl] at hstep
+      rcases hstep with ⟨s1, s2, log, rep, h1, hf, ha, hr'⟩ | ⟨s1, log, a, w, h1, hf, hr', _⟩
+      · obtain ⟨g1, g2, g3, g4⟩ := run_total p code hw hs n _ hr'
+        have hrun : run p code (n + 1) s =
+            (.ok (finish ins (ins.effects.any isJump) s2) rep log ::
+              (run p code n (finish ins (ins.effects.any isJump) s2)).1,
+             (run p code n (finish ins (ins.effects.any isJump) s2)).2) := by
+          simp only [run, h1]
+        rw [hrun]
+        have hi1 := hf.inv hr.inv
+        have hsup := hf.supplied hr.inv
+        refine ⟨g1, ?_, ?_, ?_⟩
+        · intro o ho
+          rcases List.mem_cons.1 ho with h | h
+          · subst h; trivial
+          · exact g2 o h
+        · show (log ++ logOf _).Pairwise Req.Disjoint
+          rw [List.pairwise_append]
+          refine ⟨hf.pairwise hr.inv, g3, fun r hr1 r' hr2 => ?_⟩
+          have hk : KnownReq (finish ins (ins.effects.any isJump) s2) r :=
+            known_after ha hi1 ins _ (known_of_supplied (hsup r hr1))
+          refine disjoint_of_known_unknown hk (g4 r' hr2).1 ?_
+          intro key a w he
+          subst he
+          exact (hf.unknown hr.inv _ hr1).1.1
+        · intro r hr0
+          show Unknown s r ∧ KnownReq _ r
+          rcases List.mem_append.1 (show r ∈ log ++ logOf _ from hr0) with h | h
+          · refine ⟨hf.unknown hr.inv r h, ?_⟩
+            have hk : KnownReq (finish ins (ins.effects.any isJump) s2) r :=
+              known_after ha hi1 ins _ (known_of_supplied (hsup r h))
+            exact run_known_total p code hw hs n _ hr' hk
+          · exact ⟨unknown_before hf hr.inv ha ins _ (g4 r h).1, (g4 r h).2⟩
+      · -- the run ends with the access error: the provider calls of the failed step are the rest of the log
+        have hrun : run p code (n + 1) s = ([.accessErr s1 log a w], s1) := by
+          simp only [run, h1]
+        rw [hrun]
+        refine ⟨hr', ?_, ?_, ?_⟩
+        · intro o ho
+          simp only [List.mem_singleton] at ho
+          subst ho
+          trivial
+        · show (log ++ []).Pairwise Req.Disjoint
+          rw [List.append_nil]
+          exact hf.pairwise hr.inv
+        · intro r hr0
+          have hr1 : r ∈ log := by simpa [logOf] using hr0
+          exact ⟨hf.unknown hr.inv r hr1, known_of_supplied (hf.supplied hr.inv r hr1)⟩
 
 /-! ### a request at its moment; reads of known state; values until overwritten -/
 
@@ -310,8 +458,8 @@ theorem memValue_known (p : Provider) (c : Ctx) (key : String) (addr w : Nat) (h
     obtain ⟨v, hf, _, hlen, hval⟩ := foldConst_shape (memmap_shape hi.good.1 hi.mems hd h1')
     refine ⟨v, ?_, by rw [hlen, hw], fun ρ => by rw [hval ρ, hv ρ]⟩
     unfold memValue
-    rw [h1']
-    simp only [hf]
+    rw [accessBad_false hd.2.2, h1']
+    simp only [hf, Bool.false_eq_true, if_false]
 
 /-- the fall-through only writes the instruction pointer -/
 theorem finish_reg_frame (ins : Ins) (j : Bool) (s : State) {k : String} (hk : k ≠ ipKey) :
